@@ -225,7 +225,7 @@ def _mentions_class(t):
     if t[0] == 'cls':
         return True
     if t[0] == 'dictk':
-        return _mentions_class(t[2])
+        return True     # the key type is a (string-like) class
     return any(_mentions_class(x) for x in t[1:])
 
 
